@@ -97,3 +97,32 @@ def _has_sym(x):
     if isinstance(x, _np.ndarray) and x.dtype == object:
         return True
     return False
+
+
+class SymArray(_np.ndarray):
+    """object array whose comparisons stay symbolic (numpy would coerce the
+    element-wise results of == and < on object arrays to Python bools)"""
+
+    def _cmp(self, other, fn):
+        f = _np.frompyfunc(fn, 2, 1)
+        return _np.asarray(f(_np.asarray(self), other), dtype=object).view(SymArray)
+
+    def __eq__(self, o):
+        return self._cmp(o, lambda a, b: a == b)
+
+    def __ne__(self, o):
+        return self._cmp(o, lambda a, b: a != b)
+
+    def __lt__(self, o):
+        return self._cmp(o, lambda a, b: a < b)
+
+    def __le__(self, o):
+        return self._cmp(o, lambda a, b: a <= b)
+
+    def __gt__(self, o):
+        return self._cmp(o, lambda a, b: a > b)
+
+    def __ge__(self, o):
+        return self._cmp(o, lambda a, b: a >= b)
+
+    __hash__ = None
